@@ -15,6 +15,8 @@ def ev_int(prog, cls, scalar, name, k):
     fn = prog.fn(owner + '::' + name, '%s (int)' % scalar)[0]
     E = terms.Evaluator(prog, dyn_class=cls, scalar=scalar)
     outs = E.run(fn, bind={0: terms.num(k)})
+    if E.trace.int_overflow:
+        return ('overflow', E.trace.int_overflow[0]), fn
     if len(outs) != 1 or outs[0].ret is None or terms.has_unk(outs[0].ret):
         raise AnalysisBroken('cp_normal::%s(%d) does not reduce to one expression' % (name, k))
     return poly.from_term(outs[0].ret), fn
@@ -239,7 +241,7 @@ def run(ctx, prog):
         cm = {}
         for k in range(0, 21):
             cm[k] = ev_int(prog, cls, scalar, 'eval_cen_mom', k)
-        res[scalar] = ({k: v[0] for k, v in ev.items()}, {k: v[0] for k, v in cm.items()})
+        res[scalar] = ({k: v[0] for k, v in ev.items()}, {k: (v[0] if isinstance(v[0], dict) else repr(v[0])) for k, v in cm.items()})
         if scalar != 'double':
             continue
         # data mean and size atoms as the code produces them: read them off eval_post_mean
@@ -296,6 +298,11 @@ def run(ctx, prog):
                 for j in range(k - 1, 0, -2):
                     df *= j
                 want = poly.scale(poly.ipow(S('sigma'), k), df)
+            if isinstance(cm[k][0], tuple):
+                ty, loc, what = cm[k][0][1]
+                ctx.ob('C08.CENMOM', 'k=%d|overflow' % k, False, loc or cm[k][1].where,
+                       'cp_normal::eval_cen_mom(%d): signed overflow of %s while computing %s (undefined behaviour, value garbage)' % (k, ty, what))
+                continue
             rs.compare(ctx, 'C08.CENMOM', 'k=%d' % k, cm[k][0], want, cm[k][1].where, 'cp_normal::eval_cen_mom(%d)' % k)
     ctx.ob('C08.UNI', 'cp_normal', res['double'] == res['long double'], '', 'double and long double instantiations are different expressions', sample='27 evaluations identical')
     check_sod(ctx, prog)
